@@ -74,6 +74,40 @@ theorem fixed_with_children_rounded (ftest fadd : α → α) (fixed : Array Bool
         (fun e => aget (constrainAges ftest fadd fixed eps es t 0) e.c)) :=
   forced_char ftest fadd es t hr htopo x
 
+/-- `aget` of the fixed vector derived from the flags column is the sample bit of that node's flags. -/
+theorem aget_fixedOfFlags (flags : Array Nat) (x : Nat) (hx : x < flags.size) :
+    aget (fixedOfFlags flags) x = isSampleFlag (aget flags x) := by
+  simp [aget, fixedOfFlags, hx]
+
+/-- **At the level of `util.constrain_ages` (flags column, not a pre-computed mask):** a node whose flags
+word has the sample bit set — *whatever its other flag bits are* (historical-sample, split-by-preprocess,
+user bits) — and that is never an edge parent keeps its exact input time. -/
+theorem sample_without_children_kept (ftest fadd : α → α) (flags : Array Nat) (eps : α)
+    (es : List Edge) (t : Array α) (iters : Nat) (hr : InRange t.size es) (x : Nat)
+    (hxs : x < flags.size) (hx : aget flags x % 2 = 1) (hleaf : ∀ e ∈ es, e.p ≠ x) :
+    aget (constrainAgesTs ftest fadd flags eps es t iters) x = aget t x := by
+  unfold constrainAgesTs
+  apply fixed_without_children ftest fadd _ eps es t iters hr x _ hleaf
+  rw [aget_fixedOfFlags flags x hxs]
+  simp [isSampleFlag, hx]
+
+/-- The same for samples with children, exact arithmetic: a sample (any extra flag bits) ends at the
+larger of its input time and `child output + eps`. -/
+theorem sample_with_children_minimal (flags : Array Nat) (eps : α) (es : List Edge)
+    (t : Array α) (iters : Nat) (hr : InRange t.size es) (htopo : TopoOrdered es) (x : Nat)
+    (hxs : x < flags.size) (hx : aget flags x % 2 = 1) :
+    aget (constrainAgesTs (· + eps) (· + eps) flags eps es t iters) x =
+      maxWith (aget t x) ((es.filter (fun e => e.p = x)).map
+        (fun e => aget (constrainAgesTs (· + eps) (· + eps) flags eps es t iters) e.c + eps)) := by
+  unfold constrainAgesTs
+  apply fixed_with_children _ eps es t iters hr htopo x
+  rw [aget_fixedOfFlags flags x hxs]
+  simp [isSampleFlag, hx]
+
+/-! Non-vacuity: flags 1 + 2^20 (tsinfer historical sample) and 1 + 2^30 are samples, 2^20 alone is not. -/
+example : fixedOfFlags #[1, 1048577, 1073741825, 1048576, 0, 2] = #[true, true, true, false, false, false] := by
+  decide +kernel
+
 /-! Non-vacuity: node 2 is a sample at time 1 with children 0 and 1; an internal sample. -/
 example : (constrainAges (· + (1/10 : Rat)) (· + (1/10 : Rat)) #[true, true, true, false] (1/10)
     [⟨2, 0⟩, ⟨2, 1⟩, ⟨3, 2⟩] #[0, 0, 1, 1/2] 3) = #[0, 0, 1, 11/10] := by decide +kernel
